@@ -78,6 +78,19 @@ func (v *Verdict) absorb(r *RunResult) {
 		v.SchedHash = r.World.SchedHash()
 		v.AdjPairs += r.World.AdjPairs()
 	}
+	for _, tf := range r.TaskFails {
+		head, _, _ := strings.Cut(tf, ":")
+		if strings.Contains(head, ".server") {
+			continue // a panic that escaped ServeHTTP is recorded with the RPC and judged by the checks themselves
+		}
+		// a goroutine the handler started (its reader or writer): a panic raised by the transcoder's code there takes the
+		// whole process down in a real server; a panic anywhere else is the simulator's own fault
+		if site := panicSite([]byte(tf)); site != "" && strings.Contains(head, ".h") {
+			v.violate("panic-on-handler-goroutine", map[string]string{"site": firstSite(site)}, "the transcoder panicked on a goroutine of the handler: %s", truncate(tf, 900))
+			continue
+		}
+		v.Infra = append(v.Infra, "task failure: "+truncate(tf, 600))
+	}
 	if r.Env != nil {
 		for k, n := range r.Env.Fired {
 			if v.Faults == nil {
